@@ -711,6 +711,8 @@ class VCGen:
             # permutation: every new element is an old element and conversely (set-level statement)
             k2 = fresh('k2!qs', I)
             self.assume(st, z3.ForAll([k], z3.Implies(z3.And(k >= lo, k < lo + cnt), z3.Exists([k2], z3.And(k2 >= lo, k2 < lo + cnt, new[1][k] == old[1][k2], new[0][k] == old[0][k2])))))
+            k3 = fresh('k3!qs', I); k4 = fresh('k4!qs', I)
+            self.assume(st, z3.ForAll([k3], z3.Implies(z3.And(k3 >= lo, k3 < lo + cnt), z3.Exists([k4], z3.And(k4 >= lo, k4 < lo + cnt, new[1][k4] == old[1][k3], new[0][k4] == old[0][k3])))))
         elif reg.elt in ('long long', 'int') and stride == 1:
             self.assume(st, z3.ForAll([k], z3.Implies(z3.And(k >= lo, k + 1 < lo + cnt), new[k] <= new[k + 1])))
             k2 = fresh('k2!qs', I)
@@ -769,7 +771,11 @@ class VCGen:
         env2 = SymEnv(self, st, binds, old=old, result=res)
         # in the callee's ensures, parameter names denote entry values = the actual arguments (binds)
         env2.old = self._old_with_binds(old, binds)
+        callee_ghosts = set(g.name for g in getattr(c, 'ghosts', []))
         for e in c.ensures_:
+            if callee_ghosts and any(re.search(r'\b%s\s*\(' % g, e) for g in callee_ghosts):
+                # a clause over ghost functions private to the callee cannot be read at the call site: it is not assumed (sound: fewer hypotheses)
+                continue
             self.assume(st, env2.boolean(e))
         return res
 
